@@ -114,9 +114,12 @@ func (p *clientPeer) init(readTimeout, writeTimeout time.Duration) {
 		ReadTimeout:  readTimeout,
 		WriteTimeout: writeTimeout,
 	}
-	if p.spec.Proto == "udp" {
+	switch p.spec.Proto {
+	case "udp":
 		p.c.Protocol = new(gortsplib.ProtocolUDP)
-	} else {
+	case "mcast":
+		p.c.Protocol = new(gortsplib.ProtocolUDPMulticast)
+	default:
 		p.c.Protocol = new(gortsplib.ProtocolTCP)
 	}
 	p.c.DialContext = func(ctx context.Context, network, address string) (net.Conn, error) {
@@ -329,6 +332,9 @@ func (p *clientPeer) run() {
 type rawPeer struct {
 	spec   PeerSpec
 	addr   string
+	co     *coord
+	delay  time.Duration
+	done   chan struct{} // mcast2: closed when the racing SETUP was answered or failed
 	conn   net.Conn
 	br     *bufio.Reader
 	notes  []string
@@ -396,6 +402,32 @@ func (r *rawPeer) run() error {
 	case "garbage":
 		_, err = io.WriteString(c, "\x00\x01garbage not rtsp\r\n\r\n")
 		return err
+	case "mcast2":
+		// a multicast reader whose SETUP of the second media races with the Close
+		r.done = make(chan struct{})
+		if _, err = r.request("DESCRIBE", base, 1, "Accept: application/sdp\r\n"); err != nil {
+			close(r.done)
+			return err
+		}
+		h, err := r.request("SETUP", base+"/trackID=0", 2, "Transport: RTP/AVP;multicast\r\n")
+		if err != nil {
+			close(r.done)
+			return err
+		}
+		sid := h["session"]
+		if i := strings.Index(sid, ";"); i >= 0 {
+			sid = sid[:i]
+		}
+		go func() {
+			defer close(r.done)
+			select {
+			case <-r.co.streamClosing:
+			case <-r.co.closeStarted:
+			}
+			spin(r.delay)
+			_, _ = r.request("SETUP", base+"/trackID=1", 3, "Transport: RTP/AVP;multicast\r\nSession: "+sid+"\r\n")
+		}()
+		return nil
 	case "stall":
 		if _, err = r.request("OPTIONS", base, 1, ""); err != nil {
 			return err
@@ -426,6 +458,12 @@ func (r *rawPeer) run() error {
 }
 
 func (r *rawPeer) close() {
+	if r.done != nil {
+		select {
+		case <-r.done:
+		case <-time.After(4 * time.Second):
+		}
+	}
 	if r.conn != nil {
 		r.conn.Close()
 	}
